@@ -517,4 +517,10 @@ def r4_8(ctx):
             ctx.ok(where, "the parameter part is split off the matched text and stored unchanged", f.fq)
 
 
-RULES = [r4_1, r4_2, r4_3, r4_4, r4_5, r4_6, r4_7, r4_8]
+def r4_9(ctx):
+    from .c06 import r6_5
+    from .common import borrow
+    borrow(ctx, r6_5, "R6.5", "R4.9", " [a tag styles its region through the definition str(style) that markup stores in the span: __str__ must name every attribute the tag set]")
+
+
+RULES = [r4_1, r4_2, r4_3, r4_4, r4_5, r4_6, r4_7, r4_8, r4_9]
